@@ -240,7 +240,15 @@ def same(out, ref):
     return type(out.exc) is type(ref.exc) and error_sig(out.exc) == error_sig(ref.exc)
 
 
+_NO_PROGRESS = {"n": 0}
+
+
 def run_schedule(ctx, name, policy, label, start=0, params=None):
+    if _NO_PROGRESS["n"] >= 3:
+        # three schedules of this shard already ended in the watchdog (each costs its full 20 s and each is reported as a violation): the
+        # verdict is settled, further schedules would only turn a broken tree into an hour-long run
+        ctx.count("schedules_skipped_after_three_watchdogs")
+        return None
     mk, bodies = SCENARIOS[name]
     retort = mk()
     sch = S.Scheduler([(lambda b=b: b(retort)) for b in bodies], policy, start=start)
@@ -248,6 +256,7 @@ def run_schedule(ctx, name, policy, label, start=0, params=None):
         sch.run()
     except S.Deadlock as e:
         ctx.count("watchdog_fired")
+        _NO_PROGRESS["n"] += 1
         ctx.violation(f"no-progress:{name}", f"{name} [{label} {params}]: threads did not finish: {e}", {"scenario": name, "schedule": label, "params": repr(params)})
         return None
     refs = reference(name)
